@@ -39,11 +39,13 @@ def main(tier: str) -> int:
     for preset in presets:
         for name in (names if tier == "thorough" else names[:9]):
             for nst in (0, 1, 3):
-                for lt in (1, 0):
+                for lt in (1, 0, 11):       # 11 = FLAT_TRIPLES again, this time as a version-2 stream (namespace declarations on)
+                    nsd = lt == 11
+                    lt = 1 if nsd else lt
                     outs = {}
                     for delimited in (True, False):
                         cfg_ = impl.default_cfg(integ="generic", entry="stream_frames", sclass="triple", ltype=lt, delimited=delimited,
-                                                preset=preset, name=name, frame_size=(1 if nst == 3 else 250), gen=False, star=False)
+                                                preset=preset, name=name, frame_size=(1 if nst == 3 else 250), gen=False, star=False, nsdecl=nsd)
                         stmts = [st[:2] + (("lit", f"v{i}", "", ""),) for i in range(nst)]
                         try:
                             data = impl.serialize(cfg_, stmts)
